@@ -848,6 +848,9 @@ class Shape:
             if m == 'values':
                 return ListT(recv.val)
             if m == 'get':
+                k = args[0] if args else None
+                if isinstance(recv.key, Ix) and isinstance(k, Ix) and recv.key.space is not k.space and not is_unk(k.space) and not is_unk(recv.key.space):
+                    self.report('space', e, 'a dictionary keyed by %s is looked up with a key of kind %s' % (recv.key, k))
                 return recv.val
         if isinstance(recv, Rec) and m == 'get' and args and isinstance(args[0], StrT):
             return recv.fields.get(args[0].val, args[1] if len(args) > 1 else NoneT())
@@ -1058,6 +1061,9 @@ class Shape:
                         el = Q(qmul(w.elem, CNT).dim, w.elem.tags)
                     if w.axes and a0.axes and w.axes[0] is not a0.axes[0] and not is_unk(w.axes[0]) and not is_unk(a0.axes[0]):
                         self.report('space', e, 'bincount weights over %s but ids over %s' % (w.axes[0], a0.axes[0]))
+                if 'weights' not in kw and len(args) < 2 and a0.axes and not is_unk(a0.axes[0]):
+                    # provenance of a histogram: WHICH elements were counted (the whole table, or a restriction of it)
+                    el = Q(el.dim, el.tags | {'countof:%s' % a0.axes[0]})
                 bc_ = Arr((ax,), el)
                 if 'weights' not in kw and len(args) < 2:
                     bc_.counts_of = a0
@@ -1093,16 +1099,19 @@ class Shape:
         if np_ == 'average':
             ax = self.axis_of(e, kw)
             if isinstance(a0, Arr) and isinstance(ax, int):
+                wtags = set()
                 if 'weights' in kw:
                     w = self.ev(kw['weights'], env)
                     if isinstance(w, Arr) and w.axes and w.axes[0] is not a0.axes[ax] and not is_unk(w.axes[0]) and not is_unk(a0.axes[ax]):
                         self.report('space', e, 'weights of the average range over %s but the averaged axis is %s' % (w.axes[0], a0.axes[ax]))
                     tag = 'wmean:%s' % a0.axes[ax]
+                    if isinstance(w, Arr) and isinstance(w.elem, Q):
+                        wtags = {'w' + t for t in w.elem.tags if t.startswith('countof:')}       # what the weights count (whole table / a restriction of it)
                 else:
                     tag = 'mean:%s' % a0.axes[ax]
                 axes = list(a0.axes)
                 axes.pop(ax)
-                el = Q(a0.elem.dim, a0.elem.tags | {tag}) if isinstance(a0.elem, Q) else a0.elem
+                el = Q(a0.elem.dim, a0.elem.tags | {tag} | wtags) if isinstance(a0.elem, Q) else a0.elem
                 return Arr(tuple(axes), el)
             return UNK
         if np_ == 'ravel_multi_index' and len(args) >= 2:
